@@ -140,6 +140,17 @@ func runC18(c *core.Ctx) {
 				report("rule-differs-alone-and-in-default-set", map[string]interface{}{"rule": r, "in_set": filterRule(def, r), "alone": single[r]})
 			}
 		}
+		// the empty subset: an explicit list without members runs no rule at all
+		if none, _ := validateImpl(s, k.Query, []string{}); len(none) != 0 {
+			report("empty-rule-list-reports-errors", map[string]interface{}{"errors": none})
+		}
+		{
+			args := valArgs("-", k)
+			impl := c.Impl(w, "val", args...)
+			if v, cur, none := c.Tie(w, "val", impl, args...); v == core.Violation {
+				c.Report(w, "val", thm, args, impl, cur, none)
+			}
+		}
 		for _, sub := range subsets {
 			got, _ := validateImpl(s, k.Query, sub)
 			total := 0
